@@ -50,8 +50,32 @@ func propC11(w *World, r *Report) {
 	cfg := "@param:main.Config"
 	// parameter leaves of the constructor by position
 	pl := func(i int) string { return e.termOf(ctor.Params[i]).String() }
-	if len(ctor.Params) != 6 {
-		r.Unknown("H1", "NewCPTVFileRecorder signature", w.Pos(ctor.Pos()), "expected (config, camera, brand, model, serial, firmware)")
+	// the camera identification reaches the header either through a parameter each (checked against the caller's
+	// arguments at the construction sites) or through the getters of a camera-description parameter
+	camIdent := func(field, getter string) string {
+		for i, p := range ctor.Params {
+			if typeIs(p.Type(), modPath+"/headers", "HeaderInfo") {
+				return "headers.HeaderInfo." + getter + "(" + pl(i) + ")"
+			}
+		}
+		want := map[string]int{"Brand": 2, "Model": 3, "CameraSerial": 4, "Firmware": 5}[field]
+		if want < len(ctor.Params) {
+			return pl(want)
+		}
+		return "<no source>"
+	}
+	camParam := -1
+	confParam := -1
+	for i, p := range ctor.Params {
+		if typeIs(p.Type(), modPath+"/headers", "HeaderInfo") || typeIs(p.Type(), "github.com/TheCacophonyProject/go-cptv/cptvframe", "CameraSpec") {
+			camParam = i
+		}
+		if typeIs(p.Type(), modPath+"/cmd/thermal-recorder", "Config") {
+			confParam = i
+		}
+	}
+	if camParam < 0 || confParam < 0 {
+		r.Unknown("H1", "NewCPTVFileRecorder signature", w.Pos(ctor.Pos()), "expected a configuration and a camera description parameter")
 		return
 	}
 	wantHeader := map[string]string{
@@ -65,10 +89,10 @@ func propC11(w *World, r *Report) {
 		"Altitude":     "config.Location.Altitude@main.Config.Location" + cfg,
 		"Accuracy":     "config.Location.Accuracy@main.Config.Location" + cfg,
 		"FPS":          "cptvframe.CameraSpec.FPS()",
-		"Brand":        pl(2),
-		"Model":        pl(3),
-		"CameraSerial": pl(4),
-		"Firmware":     pl(5),
+		"Brand":        camIdent("Brand", "Brand"),
+		"Model":        camIdent("Model", "Model"),
+		"CameraSerial": camIdent("CameraSerial", "CameraSerial"),
+		"Firmware":     camIdent("Firmware", "Firmware"),
 	}
 	got := storesInto(w, e, ctor, "github.com/TheCacophonyProject/go-cptv", "Header")
 	var names []string
@@ -81,6 +105,10 @@ func propC11(w *World, r *Report) {
 		ok := len(g) == 1 && g[0] == wantHeader[f]
 		if f == "MotionConfig" && len(g) == 1 {
 			ok = strings.HasPrefix(g[0], "#0(") && strings.Contains(g[0], "yaml.v2.Marshal(main.Config.Motion"+cfg+")")
+		}
+		if f == "FPS" && len(g) == 1 && !ok {
+			// the camera description's own frame rate, whatever the static type of the parameter
+			ok = g[0] == "headers.HeaderInfo.FPS("+pl(camParam)+")" || g[0] == "cptvframe.CameraSpec.FPS("+pl(camParam)+")"
 		}
 		r.Check(ok, "H1", "header."+f+" <- its specified source", w.Pos(ctor.Pos()), strings.Join(g, " | ")+"  (want "+wantHeader[f]+")")
 	}
@@ -109,7 +137,7 @@ func propC11(w *World, r *Report) {
 		r.Unknown("H1", "recorder fields", "-", "header / camera fields not found")
 		return
 	}
-	r.Check(ci.Stores[camF] != nil && ci.Stores[camF].String() == pl(1), "H1", "the recorder keeps the camera description it was given", w.Pos(ctor.Pos()), fmt.Sprint(ci.Stores[camF]))
+	r.Check(ci.Stores[camF] != nil && ci.Stores[camF].String() == pl(camParam), "H1", "the recorder keeps the camera description it was given", w.Pos(ctor.Pos()), fmt.Sprint(ci.Stores[camF]))
 	// StartRecording
 	start := findMethod(w.Prog, T, "StartRecording")
 	if start == nil {
@@ -291,13 +319,28 @@ func propC11(w *World, r *Report) {
 			if inner := ctorCallIn(fc.fn, c, ctor); inner != nil {
 				nSites++
 				built = append(built, fc.site)
-				var args []string
+				// end to end: what the constructor puts into the header / keeps as camera, read with its parameters bound
+				// to this site's arguments
 				fe := factoryEnv(he, c, inner)
-				for _, a := range inner.Call.Args {
-					args = append(args, canonCam(fe.termOf(a).String()))
+				be := fe.child()
+				for i, p := range ctor.Params {
+					if i < len(inner.Call.Args) {
+						be.bind[p] = fe.termOf(inner.Call.Args[i])
+					}
 				}
-				want := []string{he.termOf(ci2.setup.Params[1]).String(), hi, "headers.HeaderInfo.Brand(" + hi + ")", "headers.HeaderInfo.Model(" + hi + ")", "headers.HeaderInfo.CameraSerial(" + hi + ")", "headers.HeaderInfo.Firmware(" + hi + ")"}
-				r.Check(strings.Join(args, " ; ") == strings.Join(want, " ; "), "H1", fmt.Sprintf("recorder construction site #%d passes (conf, headerInfo, Brand, Model, CameraSerial, Firmware)", nSites), w.InstrPos(c), strings.Join(args, " ; "))
+				hdr := storesInto(w, be, ctor, "github.com/TheCacophonyProject/go-cptv", "Header")
+				var args, want []string
+				for _, f := range []string{"Brand", "Model", "CameraSerial", "Firmware"} {
+					g := "<unset>"
+					if len(hdr[f]) == 1 {
+						g = canonCam(hdr[f][0])
+					}
+					args = append(args, f+"="+g)
+					want = append(want, f+"=headers.HeaderInfo."+f+"("+hi+")")
+				}
+				args = append(args, "conf="+fe.termOf(inner.Call.Args[confParam]).String(), "camera="+canonCam(fe.termOf(inner.Call.Args[camParam]).String()))
+				want = append(want, "conf="+he.termOf(ci2.setup.Params[1]).String(), "camera="+hi)
+				r.Check(strings.Join(args, " ; ") == strings.Join(want, " ; "), "H1", fmt.Sprintf("recorder construction site #%d: the header's brand/model/serial/firmware are headerInfo's, built from this configuration and camera description", nSites), w.InstrPos(c), strings.Join(args, " ; "))
 			}
 			if callee != nil && callee.Name() == "NewMotionProcessor" {
 				built = append(built, fc.site)
@@ -340,6 +383,8 @@ func propC11(w *World, r *Report) {
 			r.Floor("H4", 5)
 		}
 	}
+	// preview-secs and min-secs also shape the files through the throttler: its minimum recording length is their sum
+	checkThrottleWiringAs(w, r, "H4", false)
 	// the throttler sits between the processor and the file recorder when activated: it must pass the trigger's
 	// background and threshold through, also for files it re-opens mid-trigger
 	if tr, err := getThrottleRuns(w); err == nil {
